@@ -97,6 +97,7 @@ func (ex *Exec) run() {
 		bind = append(bind, Loc{Cell: c, Sort: ex.tm.SortOf(el)})
 		env[fv.Name()] = SV{V: st.Cells[c], T: el}
 	}
+	aliasRenamed(fn, env)
 	ex.entry = st.Clone()
 	ex.entryEnv = env
 	fc := ex.contract
